@@ -27,6 +27,13 @@ INDEX_INCREMENTAL = b"\x40"
 # as prefix numbers are not zero indexed.
 _PREFIX_BIT_MAX_NUMBERS = [(2 ** i) - 1 for i in range(9)]
 
+# The largest shift we accept while accumulating the continuation octets of an
+# integer: 19 continuation octets, enough for any value below 2 ** 133.
+# RFC 7541 Section 5.1 requires integer encodings that exceed implementation
+# limits to be treated as decoding errors; without a limit a run of
+# continuation octets costs quadratic time and yields unboundedly large values.
+_MAX_INTEGER_SHIFT = 126
+
 # We default the maximum header list we're willing to accept to 64kB. That's a
 # lot of headers, but if applications want to raise it they can do.
 DEFAULT_MAX_HEADER_LIST_SIZE = 2 ** 16
@@ -105,6 +112,9 @@ def decode_integer(data: bytes, prefix_bits: int) -> tuple[int, int]:
                     number += next_byte << shift
                     break
                 shift += 7
+                if shift > _MAX_INTEGER_SHIFT:
+                    msg = "HPACK integer representation is too long"
+                    raise HPACKDecodingError(msg)
 
     except IndexError as err:
         msg = f"Unable to decode HPACK integer representation from {data!r}"
